@@ -526,7 +526,19 @@ def fam_contract(tier, kind=R):
     yield c("einsum", "np.einsum(x,[0,1],y,[1,2]) sublists no output", lambda np, x, y: np.einsum(x, [0, 1], y, [1, 2]), [kind(2, 3), kind(3, 2)], 0)
     yield c("einsum", "np.einsum(x,[Ellipsis,0],y,[Ellipsis,0],[Ellipsis]) sublists ellipsis", lambda np, x, y: np.einsum(x, [Ellipsis, 0], y, [Ellipsis, 0], [Ellipsis]), [kind(2, 3), kind(3)], 1)
     yield c("einsum", "np.einsum(x,[0,Ellipsis],y,[0,Ellipsis],[Ellipsis]) sublists ellipsis last", lambda np, x, y: np.einsum(x, [0, Ellipsis], y, [0, Ellipsis], [Ellipsis]), [kind(2, 3), kind(2, 1)], 1)
+    # sublist convention with a TRAILING / MIDDLE Ellipsis where the differentiated operand lacks the broadcast dimensions
+    # (unbroadcast must sum the axes at the Ellipsis position, not the leading ones); distinct extents
+    for k in (0, 1):
+        yield c("einsum", "np.einsum(x,[0,1,...],y,[1,2,...],[0,2,...]) trailing ellipsis, x without batch dims", lambda np, x, y: np.einsum(x, [0, 1, Ellipsis], y, [1, 2, Ellipsis], [0, 2, Ellipsis]), [kind(2, 3), kind(3, 2, 4)], k)
+        yield c("einsum", "np.einsum(x,[0,...,1],y,[1,...,2],[0,...,2]) middle ellipsis, x without batch dims", lambda np, x, y: np.einsum(x, [0, Ellipsis, 1], y, [1, Ellipsis, 2], [0, Ellipsis, 2]), [kind(2, 3), kind(3, 4, 2)], k)
+        yield c("einsum", "np.einsum('...ij,...jk->...ik') size-1 batch dim broadcast against a larger one", lambda np, x, y: np.einsum("...ij,...jk->...ik", x, y), [kind(1, 2, 3), kind(2, 3, 2)], k)
+        yield c("einsum", "np.einsum('ij,jk->ik') named size-1 dim broadcast", lambda np, x, y: np.einsum("ij,jk->ik", x, y), [kind(2, 1), kind(3, 2)], k)
+        yield c("einsum", "np.einsum('i...j,j...k->i...k') middle ellipsis string form", lambda np, x, y: np.einsum("i...j,j...k->i...k", x, y), [kind(2, 1, 3), kind(3, 2, 2)], k)
     yield c("einsum", "np.einsum('ij,jk->ik',x,x) same arg twice", lambda np, x: np.einsum("ij,jk->ik", x, x), [kind(2, 2)], 0)
+    for sa, sb in [((2, 2, 3), (2, 3, 2)), ((2, 3), (2, 3, 2)), ((2, 2, 3), (3,)), ((1, 2, 3), (2, 3, 2))]:
+        for k in (0, 1):
+            yield c("matmul", "x @ y operator, batched %r @ %r" % (sa, sb), lambda np, x, y: x @ y, [kind(*sa), kind(*sb)], k)
+    yield c("matmul", "W0 @ x reflected operator with a batched right operand", lambda np, x: onp.arange(6.0).reshape(2, 3) @ x, [kind(2, 3, 2)], 0)
     yield c("einsum", "np.einsum('ij,jk->ik',x,y,optimize=True)", lambda np, x, y: np.einsum("ij,jk->ik", x, y, optimize=True), [kind(2, 3), kind(3, 2)], 0)
 
 
@@ -1049,6 +1061,12 @@ def nested_grid(tier):
     n("inner derivative through a checkpointed segment (rev)", lambda np, x: x * egrad(lambda y: ck_sin(np)(y) * y)(x), lambda np, x: x * (np.cos(x) * x + np.sin(x)), [R(2)])
     n("checkpointed segment whose arguments belong to different levels", lambda np, x: egrad(lambda y: autograd.checkpoint(lambda a, b: np.sin(a) * b * b)(x, y))(2.0 * x), lambda np, x: np.sin(x) * 4.0 * x, [R(2)])
     n("second derivative of x^2 * checkpoint(sin)(x)", lambda np, x: egrad(lambda y: y * y * ck_sin(np)(y))(x), lambda np, x: 2.0 * x * np.sin(x) + x * x * np.cos(x), [R(2)])
+    # values an inner operator hands back besides the derivative (aux output, function value) belong to the outer level too
+    gaa, vag = autograd.grad_and_aux, autograd.value_and_grad
+    n("aux output of an inner grad_and_aux depends on the outer variable", lambda np, x: x * gaa(lambda y: (np.sum(y * y), np.sin(y) * x))(x)[1] + gaa(lambda y: (np.sum(y * y), np.sin(y) * x))(x)[0],
+      lambda np, x: x * np.sin(x) * x + 2.0 * x, [R(2)])
+    n("value output of an inner value_and_grad depends on the outer variable", lambda np, x: x * vag(lambda y: np.sum(np.cos(y) * x))(2.0 * x)[0] + vag(lambda y: np.sum(np.cos(y) * x))(2.0 * x)[1],
+      lambda np, x: x * np.sum(np.cos(2.0 * x) * x) - np.sin(2.0 * x) * x, [R(2)])
     n("two inner derivatives summed", lambda np, x: egrad(lambda y: x * y)(x) + dfw(lambda y: y * y * x, x), lambda np, x: x + 2 * x * x, [R(2)])
     return _uniq(out)
 
@@ -1252,6 +1270,8 @@ def flatten_cases():
         ("empty containers inside", ((), [R(2)], {}), lambda np, t: np.sum(t[1][0] ** 2)),
         ("0-d array leaf", (R(), R(2)), lambda np, t: t[0] * np.sum(t[1])),
         ("Fortran-contiguous matrix leaf [layout:F]", {"w": R(2, 3), "b": R(2)}, lambda np, d: np.sum(d["w"] * onp.array([[1.0, 2.0, 3.0], [4.0, 5.0, 6.0]])) + np.sum(d["b"] ** 2)),
+        ("mixed real and complex leaves: complex first", {"a": Cx(2), "w": R(2), "z": (Cx(1), CSC, SC)}, lambda np, d: np.sum(np.abs(d["a"]) ** 2) + np.sum(d["w"] ** 2) + np.abs(d["z"][0][0] * d["z"][1]) ** 2 * d["z"][2]),
+        ("mixed real and complex leaves: complex after real", (R(2), Cx(2), R(1), CSC), lambda np, t: np.sum(t[0]) * np.sum(np.real(t[1] * t[1])) + t[2][0] * np.imag(t[3]) + np.real(t[3]) ** 2),
         ("tuple with a Fortran-contiguous leaf [layout:F]", (R(3, 2), SC), lambda np, t: np.sum(t[0] * onp.arange(6.0).reshape(3, 2)) * t[1]),
     ]
 
